@@ -35,6 +35,8 @@ def find_point_mutator(prog, which: str) -> FuncInfo:
     for ms in part.all_methods.values():
         for m in ms:
             for n in own_nodes(m.node):
+                if getattr(n, "_inl", None):
+                    continue  # a copy of a new private helper read in place (core/program.py): the helper itself is the mutator
                 if isinstance(n, ast.Assign) and len(n.targets) == 1 and norm(n.targets[0]) == "self._points" \
                         and isinstance(n.value, ast.Call) and norm(n.value.func) in (f"np.{which}", f"numpy.{which}"):
                     hits.append(m)
@@ -98,6 +100,8 @@ def scan_private_stores(ctx, modules=None):
         if "#" in f.qname:
             continue  # shadowed duplicate definitions are dead code
         for n in own_nodes(f.node):
+            if getattr(n, "_inl", None):
+                continue  # copy of a new private helper read in place: the store belongs to the helper (scanned as itself)
             attr = recv = None
             kind = None
             if isinstance(n, ast.Attribute) and isinstance(n.ctx, (ast.Store, ast.Del)) and n.attr in PRIVATE_ATTRS:
@@ -755,6 +759,13 @@ def rule_F2i(ctx):
         ctx.require(m is not None, "F2i", f"{cm.qname}.{name}", "missing")
         ctx.touch(m)
         lam = [n for n in own_nodes(m.node) if isinstance(n, ast.Lambda)]
+        # the operator may also be taken from the standard library: operator.lt, operator.le, ...
+        ops = [n for n in own_nodes(m.node) if isinstance(n, ast.Attribute) and isinstance(n.value, ast.Name) and n.value.id == "operator"]
+        if not lam and len(ops) == 1:
+            ctx.check(ops[0].attr == name.strip("_"), "F2i", f"ComparableMixin.{name}", func=m, construct=f"comparison-operator:{name}",
+                      msg=f"{name} applies operator.{ops[0].attr} to the comparison keys: binary search over the time points (np.searchsorted) would find "
+                          f"wrong positions")
+            continue
         ok = len(lam) == 1 and len(lam[0].args.args) == 2
         bad = None
         if ok:
@@ -769,9 +780,20 @@ def rule_F2i(ctx):
     isub = prog.func("partitura.utils.generic:iter_subclasses", "F2i")
     ctx.touch(isub)
     src_calls = {norm(n.func) for n in own_nodes(isub.node) if isinstance(n, ast.Call)}
-    yields = [n for n in own_nodes(isub.node) if isinstance(n, ast.Yield)]
-    rec = any(isinstance(n, ast.Call) and norm(n.func) == "iter_subclasses" for n in own_nodes(isub.node))
-    ok = any(c.endswith(".__subclasses__") for c in src_calls) and len(yields) >= 2 and rec
+    # each direct subclass is yielded, the walk recurses into it *with the shared seen-set*, and what the recursion finds is yielded
+    loops = [l for l in own_nodes(isub.node) if isinstance(l, ast.For) and isinstance(l.target, ast.Name)]
+    seen_p = isub.params[1] if len(isub.params) > 1 else None
+    ok = any(c.endswith(".__subclasses__") for c in src_calls) and seen_p is not None
+    found = False
+    for lp in loops:
+        var = lp.target.id
+        direct = any(isinstance(y, ast.Yield) and isinstance(y.value, ast.Name) and y.value.id == var for y in ast.walk(lp))
+        recs = [c for c in ast.walk(lp) if isinstance(c, ast.Call) and norm(c.func) == "iter_subclasses" and c.args and norm(c.args[0]) == var]
+        shared = any((len(c.args) >= 2 and norm(c.args[1]) == seen_p) or any(k.arg == seen_p and norm(k.value) == seen_p for k in c.keywords) for c in recs)
+        passed_on = any((isinstance(y, ast.YieldFrom) and y.value in recs) or
+                        (isinstance(y, ast.For) and y.iter in recs and any(isinstance(z, ast.Yield) for z in ast.walk(y))) for y in ast.walk(lp))
+        found = found or (direct and shared and passed_on)
+    ok = ok and found
     ctx.check(ok, "F2i", "iter_subclasses: direct subclasses + recursion", func=isub, construct="subclass-walk",
               msg="iter_subclasses must yield every direct subclass (cls.__subclasses__()) and the subclasses of each, recursively: "
                   "include_subclasses=True queries would otherwise miss registered objects")
